@@ -151,7 +151,8 @@ def main(tier, only=None):
                 size = groups * g + (1 if bs == 1024 else 0)
                 steps = []
                 if groups in (3, 8, 26) or not quick and groups % 5 == 0:
-                    steps = [('resize2fs +2 groups', [R, '-f', '{img}', str(size + 2 * g)]), ('tune2fs -O ^dir_index', [T, '-O', '^dir_index', '{img}']),
+                    steps = [('resize2fs shrink inside the last group', [R, '-f', '{img}', str(size - g // 3)]), ('resize2fs grow inside the last group', [R, '-f', '{img}', str(size - g // 7)]),
+                             ('resize2fs +2 groups', [R, '-f', '{img}', str(size + 2 * g)]), ('tune2fs -O ^dir_index', [T, '-O', '^dir_index', '{img}']),
                              ('tune2fs -U', [T, '-f', '-U', '11111111-2222-3333-4444-555555555555', '{img}']),
                              ('resize2fs to 28 groups', [R, '-f', '{img}', str(28 * g + 1)]), ('e2fsck -fyD', [E2FSCK, '-fyD', '{img}'])]
                 jobs.append(('%s/bs%d/g%d' % (name, bs, groups), ['-b', str(bs), '-g', str(g), '-N', str(16 * groups)] + args, size, steps))
@@ -169,7 +170,7 @@ def main(tier, only=None):
             ck.violation('%s :: %s' % (cid, b[:70]), {'case': cid, 'mke2fs_args': j[1], 'size': j[2], 'what': b})
     ck.add(evaluations=runs, distinct_nontrivial=ok, states=len(jobs), transitions=runs, traces_validated_against_impl=runs,
            rule='group count (quick: 1..12, 17, 18, 24..28, 33, 34, 49, 50; thorough 1..50) x layout {sparse_super, none, sparse_super2 with 2/1/0 backups, meta_bg (32-bit, 64-bit, with sparse_super2), no flex_bg, 64bit+csum, resize_inode} x block size; '
-                'after mke2fs and after each of resize2fs/tune2fs/e2fsck -D transitions: (1) set of groups carrying a superblock copy == set computed from the format rule, copies current (geometry, features, checksum); '
+                'after mke2fs and after each of resize2fs (shrink and grow inside the last group, i.e. same group count; +2 groups; to 28 groups)/tune2fs/e2fsck -D transitions: (1) set of groups carrying a superblock copy == set computed from the format rule, copies current (geometry, features, checksum); '
                 '(2) for every such location: primary superblock and descriptors zeroed, e2fsck -fy -b loc -B bs must exit <=1, then e2fsck -fn = 0, xck.tree equals the original and every group keeps its bitmap/inode-table locations',
            samples=[jobs[0][0], jobs[len(jobs) // 2][0], jobs[-1][0]])
     ck.cov['skipped'] = skip
